@@ -575,57 +575,7 @@ func c08R5(c *Ctx, r *Report) {
 			r.check(len(problems) == 0, "C08.R5.search-gate", "domainNameLen->compressionLenSearch", c.pos(calls[0].Pos()), "guarded", "%s", strings.Join(problems, "; "))
 		}
 	}
-	// escape-skip (AST)
-	fd := c.decl("escapedNameLen")
-	if fd == nil {
-		r.cerr("C08.R5.escape-skip", "escapedNameLen", "function not found")
-		return
-	}
-	r.fn("escapedNameLen")
-	var problems []string
-	pairs := 0
-	ast.Inspect(fd.Body, func(n ast.Node) bool {
-		blk, ok := n.(*ast.BlockStmt)
-		if !ok {
-			return true
-		}
-		var sub, skip int64 = 0, 0
-		hasSub, hasSkip := false, false
-		for _, s := range blk.List {
-			switch st := s.(type) {
-			case *ast.AssignStmt:
-				if len(st.Lhs) == 1 && len(st.Rhs) == 1 {
-					k, isK := c.exprConst(st.Rhs[0])
-					name := identName(st.Lhs[0])
-					if isK && st.Tok == token.SUB_ASSIGN && name == "nameLen" {
-						sub, hasSub = k, true
-					}
-					if isK && st.Tok == token.ADD_ASSIGN && name == "i" {
-						skip, hasSkip = k, true
-					}
-				}
-			case *ast.IncDecStmt:
-				name := identName(st.X)
-				if st.Tok == token.DEC && name == "nameLen" {
-					sub, hasSub = 1, true
-				}
-				if st.Tok == token.INC && name == "i" {
-					skip, hasSkip = 1, true
-				}
-			}
-		}
-		if hasSub || hasSkip {
-			pairs++
-			if !(hasSub && hasSkip && sub == skip) {
-				problems = append(problems, fmt.Sprintf("%s: escape branch subtracts %d octets but skips %d", c.pos(blk.Pos()), sub, skip))
-			}
-		}
-		return true
-	})
-	if pairs < 2 {
-		problems = append(problems, fmt.Sprintf("found %d escape branches, expected the \\DDD and the \\c form", pairs))
-	}
-	r.check(len(problems) == 0, "C08.R5.escape-skip", "escapedNameLen", c.pos(fd.Pos()), "(3,3) and (1,1)", "%s", strings.Join(problems, "; "))
+	escapeSkipExec(c, r, "C08.R5.escape-skip")
 }
 
 func identName(e ast.Expr) string {
